@@ -259,6 +259,28 @@ func runC20(r *Run) {
 		}
 	}
 
+	// ---------- R6 ----------
+	r.Rule("R6", "REACH.no-state-access-at-construction: no function in the construction scope K (what NewHaqq and package initialisers call) creates an sdk.Context on the application's stores (BaseApp.NewContext / NewUncachedContext) — a start-up routine that reads state through keepers can also write it (GetModuleAccount creates missing accounts), outside any block, on the restarted node only")
+	{
+		nK, bad := 0, 0
+		for _, fn := range sc.K.HaqqFuncs() {
+			if isTestSupport(P, fn) {
+				continue
+			}
+			nK++
+			eachCall(fn, func(ci CallInfo) {
+				if (ci.Name == "NewUncachedContext" || ci.Name == "NewContext") && (ci.Recv == "BaseApp" || ci.Recv == "Haqq") {
+					bad++
+					r.Bad("R6", fnID(fn)+"#creates-context/"+ci.Name, P.Pos(instrPos(ci.Instr)), "the node's start-up path creates a context on the committed stores ("+ci.Name+"): whatever is read or written through it happens outside any block and only on a node that (re)starts — e.g. AccountKeeper.GetModuleAccount creating module accounts and bumping the account number, which changes the next app hash", sc.K.Chain(fn)...)
+				}
+			})
+		}
+		if bad == 0 {
+			r.OK("R6", "scope-K", "", fmt.Sprintf("%d construction-scope functions examined: none creates a context on the stores", nK))
+		}
+		r.Floor("R6", "construction-scope functions", nK, 50)
+	}
+
 	// ---------- R2 ----------
 	for _, id := range []string{"(*x/evm/keeper.Keeper).AddEVMExtensions", "(x/erc20/keeper.Keeper).RegisterERC20Extensions"} {
 		fn, ok := P.FnOK(id)
